@@ -223,6 +223,7 @@ type Sim struct {
 	listSeen        bool
 	rconfDel        bool
 	rconfDelHighest bool
+	issued          int
 	rconfAdd        bool
 	joiner          int // node id waiting to be started after rconf add
 	pendingCrash    []string
@@ -419,7 +420,7 @@ func (s *Sim) journal(sig string, format string, a ...any) {
 
 func (s *Sim) startNode(ns *nodeState, dir string, join bool) {
 	os.MkdirAll(dir, 0o750)
-	inc := &incarnation{sim: s, node: ns, gen: ns.gen, dir: dir, peers: map[uint64]bool{}, tickBase: time.Now()}
+	inc := &incarnation{sim: s, node: ns, gen: ns.gen, dir: dir, peers: map[uint64]bool{}, tickBase: time.Now(), fromImage: ns.gen > 0}
 	ns.gen++
 	inc.ctx, inc.cancel = context.WithCancel(s.rootCtx)
 	s.mu.Lock()
@@ -431,6 +432,12 @@ func (s *Sim) startNode(ns *nodeState, dir string, join bool) {
 		NodeID: ns.id, RaftAddr: nodeURL(ns.id), PeerAddrs: s.peerAddrs(n), JoinCluster: join}
 	config.Configures = cfg
 	inc.vn = server.VerifStartCluster(inc.ctx, cfg)
+	// the WAL has been replayed (a node that cannot read its own files has
+	// died by now); what follows is the node applying what it found
+	if inc.fromImage {
+		s.lastSig = ""
+		s.journal(s.deathSig(), "n%d replayed its WAL and starts raft", ns.id)
+	}
 	synctest.Wait()
 	s.mu.Lock()
 	ns.inc = inc
@@ -488,7 +495,14 @@ func (s *Sim) crashLocked(inc *incarnation, kind string) {
 	dst := filepath.Join(s.base, fmt.Sprintf("n%dg%d", ns.id, ns.gen))
 	cs, err := s.shadow.materialise(inc.dir, dst, func(n int) []bool {
 		lost := make([]bool, n)
-		switch s.tape.Draw(4) {
+		mode := s.tape.Draw(4)
+		if s.k.SectorLoss == "all-or-none" && mode >= 2 {
+			mode = 1
+		}
+		if s.k.SectorLoss == "none" {
+			mode = 0
+		}
+		switch mode {
 		case 0: // everything written reached the disk
 		case 1: // nothing unsynced reached the disk
 			for i := range lost {
@@ -919,23 +933,13 @@ func (s *Sim) deathSig() string {
 	return p + "/node-death/idle"
 }
 
-// snapshotDue: some node is about to outgrow its snapshot threshold.
+// snapshotDue: the log may outgrow the snapshot threshold during the next
+// stimulus (commands issued so far plus election/configuration entries).
 func (s *Sim) snapshotDue() bool {
-	if s.k.SnapCount == 0 {
+	if s.k.SnapCount == 0 || s.k.SnapCount >= 10000 {
 		return false
 	}
-	var maxCommit uint64
-	for _, ns := range s.nodes {
-		if ns.view.ok && ns.view.commit > maxCommit {
-			maxCommit = ns.view.commit
-		}
-	}
-	for _, ns := range s.nodes {
-		if ns.view.ok && maxCommit+uint64(len(s.cs))+2 > ns.lastSnapIdx+s.k.SnapCount {
-			return true
-		}
-	}
-	return false
+	return uint64(s.issued+8) > s.k.SnapCount
 }
 
 func (s *Sim) apply(e event) {
@@ -1095,6 +1099,7 @@ func (s *Sim) issue(c *clientState, args []B, node int, idx int, final, probe bo
 	c.ops = append(c.ops, op)
 	c.cur = op
 	s.noteCommand(args)
+	s.issued++
 	s.journal(s.deathSig(), "c%d->n%d %s", c.idx, node, truncate(cmdString(args), 200))
 	s.trace("c%d->n%d send#%d %s", c.idx, node, idx, truncate(cmdString(args), 120))
 	if lead := s.nodes[node-1].view.lead; lead != 0 && lead != uint64(node) {
